@@ -278,6 +278,23 @@ impl<'tcx> Cx<'tcx> {
                 } else {
                     format!("{}", bits)
                 };
+                if let ty::Adt(adt, _) = ty.kind() {
+                    if adt.is_enum() {
+                        self.note_adt(*adt);
+                        let size = i.size().bytes() as usize;
+                        let mask = if size >= 16 { u128::MAX } else { (1u128 << (8 * size)) - 1 };
+                        for (vi, d) in adt.discriminants(tcx) {
+                            if d.val & mask == bits & mask {
+                                let _ = write!(
+                                    o,
+                                    ",\"enum\":{},\"variant\":{}",
+                                    esc(&self.path(adt.did())),
+                                    esc(adt.variant(vi).name.as_str())
+                                );
+                            }
+                        }
+                    }
+                }
                 match ty.kind() {
                     ty::Bool => {
                         let _ = write!(o, ",\"v\":{}", if bits != 0 { "true" } else { "false" });
